@@ -85,7 +85,9 @@ Definition rout_eqb (a b : rout) : bool :=
   match a, b with
   | OResp c es s, OResp c' es' s' => (c =? c') && entries_eqb es es' && Bool.eqb s s'
   | ORelay d m, ORelay d' m' | OHeld d m, OHeld d' m' => (d =? d') && (m =? m')
-  | ODrop, ODrop => true
+  | ODrop, ODrop | ORestarted, ORestarted => true
+  | OBatch c ms, OBatch c' ms' => (c =? c') && skey_eqb ms ms'
+  | ONoInbox c, ONoInbox c' => c =? c'
   | _, _ => false
   end.
 Fixpoint routs_eqb (a b : list rout) : bool :=
@@ -96,7 +98,7 @@ Fixpoint routs_eqb (a b : list rout) : bool :=
   end.
 
 Record rcase := { r_ops : list rop; r_obs : list rout }.
-Definition check_rcase (c : rcase) : bool := routs_eqb (r_obs c) (snd (rrun [] (r_ops c))).
+Definition check_rcase (c : rcase) : bool := routs_eqb (r_obs c) (snd (rrun ms0 (r_ops c))).
 
 Inductive case := CW (c : wcase) | CR (c : rcase).
 Definition check_case (c : case) : bool :=
